@@ -74,6 +74,25 @@ structure SealOut (κ : Type) where
 def sealBody {κ : Type} [DecidableEq κ] (mustSeal : κ → Bool) (s : SealOut κ) (k : κ) : SealOut κ :=
   if mustSeal k then { closed := s.closed.set k true, failed := s.failed ++ [k], sealed := s.sealed ++ [k] } else s
 
+/-! ### shape G: a map-ordered slice that leaves the function and is consumed by removals
+ x/oracle/keeper/aggregator/context.go: SealRound returns `sealed` in the iteration order of `agc.rounds`;
+ x/oracle/module.go: EndBlock calls RemoveNonceWithFeederIDForValidators for every element, which, per
+ validator, removes that feeder's item from the persisted `ValidatorNonce.NonceList`
+ (x/oracle/keeper/nonce.go: removeNonceWithValidatorAndFeederID). Feeder ids occur at most once in a list. -/
+
+/-- the removal as it is: `append(list[:i], list[i+1:]...)` — the remaining items keep their order -/
+def spliceRemove (l : List Nat) (f : Nat) : List Nat := l.erase f
+
+/-- the O(1) idiom it must not become: move the last item into the freed slot and truncate -/
+def swapRemove (l : List Nat) (f : Nat) : List Nat :=
+  match l.findIdx? (· == f) with
+  | none => l
+  | some i => (l.set i (l.getLastD 0)).dropLast
+
+/-- the EndBlocker's loop over `sealed` for one validator's list -/
+def removeSealed (remove : List Nat → Nat → List Nat) (sealed : List Nat) (l : List Nat) : List Nat :=
+  sealed.foldl remove l
+
 /-! ### CheckTx / simulation must not touch what DeliverTx and EndBlock read (second half of C08)
  The oracle keeps process-global in-memory state next to the store: the cache `cs` (pending price
  messages, params with an `update` flag) that x/oracle/module.go: EndBlock commits, and the slice
